@@ -430,6 +430,29 @@ def deadlock_jobs(tier):
 
 
 # ------------------------------------------------------------------ main
+# ------------------------------------------------------------------ (d) a reader that starts late
+def late_reader_worker(job):
+    """checks/c09.py's late-wait harness seen from this property: the output of a process is left unread for k
+    deliveries (the stream buffer fills, the channel is paused, the window closes); from the moment the application
+    reads (wait / communicate / read both streams / read a little and wait) the window must be replenished and
+    every byte written must arrive."""
+    import c09
+    acc = core.Acc()
+    for n, k, api in job:
+        obs = c09.late_wait_case(n, k, api)
+        acc.add(core.digest(('late-reader', n, k, api)), transitions=obs['steps'] + 1)
+        for kind, detail in obs['viol']:
+            if kind in ('waiter-hung', 'output-incomplete', 'livelock'):
+                acc.violation('late-reader:%s:%s' % (kind, api), '%s ; n=%d k=%d' % (detail, n, k), {'kind': 'late-reader', 'case': [n, k, api]})
+    return acc
+
+
+def late_reader_jobs(tier):
+    sizes = (63, 64, 65, 200, 400) if tier == 'quick' else (1, 32, 63, 64, 65, 96, 128, 129, 200, 400, 1000)
+    cases = [(n, k, api) for api in ('wait', 'communicate', 'read-all', 'run-like') for n in sizes for k in range(0, 24 if tier == 'quick' else 40)]
+    return [cases[i::16] for i in range(16)]
+
+
 def main(tier, seed):
     t0 = core.now()
     acc = core.Acc()
@@ -445,6 +468,7 @@ def main(tier, seed):
     n_b = acc.evaluations - n_a
     acc.merge(core.pmap(deadlock_worker, core.rotate(deadlock_jobs(tier), seed)))
     n_c = acc.evaluations - n_a - n_b
+    acc.merge(core.pmap(late_reader_worker, late_reader_jobs(tier)))
     rule = ('(a) sender: for (role, initial window, max packet, write list) every sequence of 5 '
             'WINDOW_ADJUST grants from a menu {pkt, 0, 1, rest, 2^32-1} with <= bound deviations, '
             'refpeer ledger never negative, packets <= max packet, everything delivered once enough is '
@@ -452,7 +476,9 @@ def main(tier, seed):
             'packet size), extended data, pause, resume} from a hostile peer; (c) real<->real stream '
             'API, reader call menus x write sizes around the window (and writers with their own write-buffer '
             'limits incl. low-water 0, two write+drain rounds), every packet-delivery interleaving '
-            'within the deviation bound, no deadlock')
+            'within the deviation bound, no deadlock; (d) a process whose output is left unread for k = 0..23 deliveries '
+            '(buffer full, channel paused, window closed) before the application reads it through wait / communicate / '
+            'both streams / read-then-wait: everything written arrives')
     return core.finish(PROP, tier, seed, 'model_checking', acc, t0, rule,
                        {'sender_execs': n_a, 'receiver_execs': n_b, 'deadlock_execs': n_c,
                         'deviation_bound': 2 if tier == 'quick' else 3,
@@ -465,6 +491,9 @@ def replay(rep):
         obs = sender_run(tuple(tuple(x) if isinstance(x, list) and x and not isinstance(x[0], list) else x
                                for x in _tuplify(r['job'])), core.Chooser(r['choices']))
         v = obs['viol']
+    elif r['kind'] == 'late-reader':
+        import c09
+        v = [x for x in c09.late_wait_case(*r['case'])['viol'] if x[0] in ('waiter-hung', 'output-incomplete', 'livelock')]
     elif r['kind'] == 'receiver':
         v, _ = receiver_run(r['role'], r['W'], r['PKT'], [tuple(o) for o in r['ops']])
     else:
